@@ -284,8 +284,16 @@ pub fn evaluate(ctx: &Ctx, wd: &WorkDir, oracle_kind: &str, case: &Case, lkm: bo
                         let sx = String::from_utf8_lossy(&x).to_string();
                         let sy = String::from_utf8_lossy(&y).to_string();
                         let first = sx.lines().zip(sy.lines()).position(|(p, q)| p != q).unwrap_or(sx.lines().count().min(sy.lines().count()));
+                        // which checks' warnings differ (names of the warnings in the symmetric difference)
+                        let class = match (serde_json::from_str::<Vec<Warning>>(&sx), serde_json::from_str::<Vec<Warning>>(&sy)) {
+                            (Ok(wx), Ok(wy)) => {
+                                let names: BTreeSet<String> = wx.iter().filter(|w| !wy.contains(w)).chain(wy.iter().filter(|w| !wx.contains(w))).map(|w| w.name.clone()).collect();
+                                if names.is_empty() { "output_differs: order only".to_string() } else { format!("output_differs: {}", names.into_iter().collect::<Vec<_>>().join(",")) }
+                            }
+                            _ => "output_differs".to_string(),
+                        };
                         return Err((
-                            viol("output_differs", format!("warning output differs between two runs on the same input that differ only in {knob} (first differing line {first}: {:?} vs {:?})", sx.lines().nth(first).unwrap_or(""), sy.lines().nth(first).unwrap_or(""))),
+                            viol(class, format!("warning output differs between two runs on the same input that differ only in {knob} (first differing line {first}: {:?} vs {:?})", sx.lines().nth(first).unwrap_or(""), sy.lines().nth(first).unwrap_or(""))),
                             vec![a, b],
                         ));
                     }
